@@ -117,7 +117,11 @@ Absorb(x, e) ==
   ELSE IF e.op = "vote"
     THEN Norm(x, CN!HandleMsg("me", s, [t |-> e.k, r |-> e.r, src |-> e.src, v |-> e.v], e.src))
   ELSE IF e.op = "strag"      \* a precommit of the previous height while in NewHeight: cs.LastCommit.AddVote
-    THEN IF s.step = StNewHeight /\ s.lastCommit.r = e.r /\ s.lastCommit.votes[e.src] = None
+    THEN IF s.step = StNewHeight /\ s.lastCommit.r = e.r
+            /\ (\/ s.lastCommit.votes[e.src] = None
+                \* VoteSet.addVerifiedVote: a conflicting vote for the block that has the majority REPLACES the validator's
+                \* entry in .votes even when it is then refused (not added) for want of a peer's claim
+                \/ (s.lastCommit.votes[e.src] # e.v /\ x.h >= 2 /\ x.chain[x.h - 1].v = e.v))
          THEN [x EXCEPT !.cn.lastCommit.votes[e.src] = e.v] ELSE x
   ELSE IF e.op = "claim" THEN [x EXCEPT !.cn = CN!HandleClaim(s, e.k, e.r, "ext", e.v)]
   ELSE x
@@ -398,7 +402,7 @@ Step1(y, e) ==
       isVote == e.op \in {"vote", "strag"}
       \* EventVote fires for every vote the vote set ADDS: a first vote of the validator, or a conflicting one for a
       \* block a peer has claimed (VoteSet.addVote)
-      recorded(z) == IF e.op = "strag" THEN z.cn.lastCommit.votes[e.src] = e.v
+      recorded(z) == IF e.op = "strag" THEN z.cn.lastCommit.votes[e.src] # None   \* (a replaced entry is not an added vote)
                      ELSE IF z.h = y.h THEN e.r \in z.cn.tracked /\ e.src \in CN!ByFor(VS(z, TOf(e.k), e.r), e.v)
                      ELSE z.cn.lastCommit.r = e.r /\ e.k = "precommit" /\ z.cn.lastCommit.votes[e.src] = e.v
       newVote == isVote /\ ~recorded(y) /\ recorded(y2)
